@@ -34,6 +34,10 @@ func genConc(r *rand.Rand, cc ConcCfg, id int, prefix string) Program {
 	if cc.Workload == "create" {
 		// nobody creates the store beforehand: the concurrent transactions all call NewBtree on the same name
 		seed = TxnSpec{Mode: "w", End: "rollback"}
+	} else if cc.Workload == "split" {
+		for k := 1; k <= cc.Keys; k++ { // sparse keys: room for neighbours between them
+			seed.Ops = append(seed.Ops, OpSpec{Op: "Add", Store: 0, K: 100 * k, V: "0"})
+		}
 	} else if !cc.Empty {
 		for k := 1; k <= cc.Keys; k++ {
 			seed.Ops = append(seed.Ops, OpSpec{Op: "Add", Store: 0, K: k, V: "0"})
@@ -51,6 +55,20 @@ func genConc(r *rand.Rand, cc ConcCfg, id int, prefix string) Program {
 			}
 			if r.Intn(4) == 0 {
 				t.End = "rollback"
+			}
+		case "split":
+			// c1 adds one key; c2 adds eight neighbours of it (leaf splits, inner nodes change); further
+			// transactions add single keys elsewhere.  Whoever commits second must merge into the new structure.
+			j := 1 + (id % cc.Keys)
+			switch ti {
+			case 0:
+				t.Ops = append(t.Ops, OpSpec{Op: "Add", Store: 0, K: 100*j + 50, V: tag + ".0"})
+			case 1:
+				for i := 1; i <= 8; i++ {
+					t.Ops = append(t.Ops, OpSpec{Op: "Add", Store: 0, K: 100*j + 50 + i, V: fmt.Sprintf("%s.%d", tag, i)})
+				}
+			default:
+				t.Ops = append(t.Ops, OpSpec{Op: "Add", Store: 0, K: 100*(1+(id+ti)%cc.Keys) + 10 + ti, V: tag + ".0"})
 			}
 		case "disjoint":
 			n := 1 + r.Intn(4)
